@@ -676,16 +676,23 @@ func oracleDecode(r *report, g *G, n int, single string, bounded bool) {
 	}
 	if bounded {
 		oracleAlloc(r, g)
-		// a remaining length that never ends: the header reader must give up after five bytes
-		for _, k := range []int{5, 6, 9, 10, 11, 64, 1000, 65536} {
-			for _, fill := range []byte{0x80, 0xff, 0x81} {
+	}
+	// a remaining length that never ends, or ends after 5..11 bytes with any last byte: the
+	// header reader must give up after five bytes (C05) and must not panic on the value (C04)
+	for _, k := range []int{4, 5, 6, 7, 8, 9, 10, 11, 64, 1000, 65536} {
+		for _, fill := range []byte{0x80, 0xff, 0x81} {
+			for _, last := range []byte{0x00, 0x01, 0x7f} {
 				stream := append([]byte{byte(g.pick(256))}, bytesRepeat(fill, k)...)
-				stream = append(stream, 0x00, 0x00)
+				stream = append(stream, last, 0x00)
 				rd := oneChunk(stream)
 				o := readOnce(rd)
-				c := fmt.Sprintf("R 1 %02x + %d x %02x + 0000", stream[0], k, fill)
-				if o.kind >= 0 || rd.got > 6 {
-					r.fail("header-unbounded", "R 1 "+trunc(hexs(stream)), fmt.Sprintf("%s: consumed %d bytes, result %s", c, rd.got, trunc(o.verdict())))
+				c := fmt.Sprintf("R 1 %02x + %d x %02x + %02x00", stream[0], k, fill, last)
+				if bounded {
+					if o.kind >= 0 || rd.got > 6 {
+						r.fail("header-unbounded", "R 1 "+trunc(hexs(stream)), fmt.Sprintf("%s: consumed %d bytes, result %s", c, rd.got, trunc(o.verdict())))
+					}
+				} else if o.panic || o.both || o.none {
+					r.fail("decode-panic", "R 1 "+trunc(hexs(stream)), fmt.Sprintf("%s: %s", c, trunc(o.verdict())))
 				}
 				r.eval("long-header", true, c)
 			}
@@ -1039,6 +1046,9 @@ func oracleC16(r *report, g *G, n int, single string) {
 		c := "R 1 " + hexs(f)
 		o := readOnce(oneChunk(f))
 		if o.kind < 0 {
+			// the body is one the library itself wrote for this type (and, for PUBLISH, this
+			// QoS): the flag nibble must not make it unreadable
+			r.fail("dispatch-rejected", c, fmt.Sprintf("a body valid for first byte %02x is rejected: %s", b, trunc(o.verdict())))
 			r.eval("rejected", false, c)
 			return
 		}
@@ -1171,6 +1181,32 @@ func roundTrip(r *report, k int, cs []string) {
 		r.fail("roundtrip-reencode", c, "first "+trunc(hexs(f))+" second "+trunc(o.enc))
 	case o.got != len(f):
 		r.fail("roundtrip-consumed", c, fmt.Sprintf("%d of %d", o.got, len(f)))
+	}
+	// the same frame through readers that deliver it in pieces (C01 is about ReadPacket on any
+	// reader): two halves with the error-free style, and - for short frames - one byte per Read
+	// with zero-length reads in between and io.EOF together with the last byte
+	if o.kind == k && o.snap == want && len(f) >= 2 && len(f) <= 1<<16 {
+		deliveries := [][]int{{len(f) / 2, len(f) - len(f)/2}, {1, 1, len(f) - 2}}
+		if len(f) <= 600 {
+			ones := make([]int, len(f))
+			for i := range ones {
+				ones[i] = 1
+			}
+			deliveries = append(deliveries, ones)
+		}
+		for di, parts := range deliveries {
+			var ps []int
+			for _, x := range parts {
+				if x > 0 {
+					ps = append(ps, x)
+				}
+			}
+			o2 := readOnce(scriptOf(f, ps, di == 2, di%2))
+			if o2.panic || o2.kind != k || o2.snap != want || o2.enc != o.enc {
+				r.fail("roundtrip-fragmented", c, fmt.Sprintf("delivery %d of frame %s: %s, contiguous %s", di, trunc(hexs(f)), trunc(o2.verdict()), trunc(o.verdict())))
+				break
+			}
+		}
 	}
 	rlForm := 1
 	if rl, _ := splitFrame(f); rl > 127 {
@@ -1392,7 +1428,11 @@ func oracleC10(r *report, g *G, n int, single string) {
 
 func readOnlyOps(p mq.Packet, g *G) {
 	for i := 0; i < 3; i++ {
-		switch g.pick(5) {
+		switch g.pick(7) {
+		case 5: // writing to a writer that fails at once is still only writing
+			p.WriteTo(&scriptWriter{mode: 'F', err: &readerErr{tag: 7}})
+		case 6: // ... or that accepts a few bytes and then fails
+			p.WriteTo(&scriptWriter{mode: 'S', k: g.pick(6), err: &readerErr{tag: 8}})
 		case 0:
 			_ = p.String()
 		case 1:
@@ -1548,6 +1588,9 @@ func obsOfArg(typ, arg string) string {
 	case "bool":
 		return "B" + arg
 	case "str", "bin":
+		if arg == "" {
+			arg = "-" // an empty, non-nil slice is the empty value too
+		}
 		return "S" + arg
 	}
 	return "N" + arg
@@ -1736,7 +1779,7 @@ func oracleC12(r *report, g *G, n int, single string) {
 			}
 		}
 		if k == 1 {
-			flagSetters = append(flagSetters, "SetUsername:-", "SetUsername:75", "SetPassword:-", "SetPassword:70",
+			flagSetters = append(flagSetters, "SetUsername:-", "SetUsername:75", "SetPassword:-", "SetPassword:", "SetPassword:70",
 				"SetWill:[SetQoS:1]", "SetWill:[SetQoS:2;SetRetain:1]", "SetWill:[]")
 		}
 		m := len(flagSetters)
@@ -1987,7 +2030,26 @@ func oracleC18(r *report, g *G, n int, single string) {
 				r.fail("credentials-disclosed", c, "decoded packets render differently")
 			}
 		}
-		// and no contiguous part (>= 3 bytes) of a secret shows up, unless it is public elsewhere
+		// a packet that already holds credentials is used as the target of UnmarshalBinary for a
+		// CONNECT frame without them (flags cleared, fields kept): still nothing of the secret
+		func() {
+			defer func() { recover() }()
+			bare := frameOf(build(1, []string{"SetClientID:63"}))
+			_, hl := splitFrame(bare)
+			a2, b2 := build(1, mk(u1, p1)), build(1, mk(u2, p2))
+			ea := a2.(*mq.Connect).UnmarshalBinary(append([]byte{}, bare[hl:]...))
+			eb := b2.(*mq.Connect).UnmarshalBinary(append([]byte{}, bare[hl:]...))
+			if ea != nil || eb != nil {
+				return
+			}
+			sa, da, pa := renderBoth(a2)
+			sb, db, pb := renderBoth(b2)
+			if pa || pb {
+				r.fail("credentials-panic", c, "String/Dump panicked on a reused packet")
+			} else if sa != sb || da != db {
+				r.fail("credentials-disclosed", c, fmt.Sprintf("after UnmarshalBinary of a credential-free CONNECT into the packets: %q vs %q / %q vs %q", trunc(sa), trunc(sb), trunc(da), trunc(db)))
+			}
+		}()
 		r.eval(fmt.Sprintf("len%d", min(len(u1), 9)), true, c)
 	}
 	if single != "" {
@@ -2170,10 +2232,12 @@ func mqttWellFormed(k int, p mq.Packet) bool {
 
 func oracleC02(r *report, g *G, n int, single string) {
 	type job struct {
-		c    string
-		line string
+		c            string
+		line         string
+		validityOnly bool
 	}
 	var jobs []job
+	validityOnly := false
 	add := func(k int, cs []string) {
 		c := "H " + strconv.Itoa(k) + sp(cs)
 		var p mq.Packet
@@ -2197,7 +2261,7 @@ func oracleC02(r *report, g *G, n int, single string) {
 		if len(f) > 300000 {
 			return
 		}
-		jobs = append(jobs, job{c, "J " + hexs(f) + " " + snap})
+		jobs = append(jobs, job{c, "J " + hexs(f) + " " + snap, validityOnly})
 	}
 	if single != "" {
 		f := splitWS(single)
@@ -2245,6 +2309,23 @@ func oracleC02(r *report, g *G, n int, single string) {
 			}
 			add(k, domainFix(k, cs))
 		}
+		// just outside the round-trip domain, where the frame must still be valid MQTT although
+		// not every value set can be carried: a will that has a topic alias, subscription
+		// identifiers, a packet identifier or DUP; a packet identifier on a QoS 0 PUBLISH; a will
+		// delay without a will. Judged for validity only.
+		validityOnly = true
+		for i := 0; i < n/8+6; i++ {
+			extras := []string{"SetTopicAlias:" + strconv.Itoa(1+g.pick(9)), "AddSubscriptionID:" + strconv.Itoa(1+g.pick(300)),
+				"SetPacketID:" + strconv.Itoa(1+g.pick(999)), "SetDuplicate:1"}
+			will := "SetTopicName:74;SetQoS:" + strconv.Itoa(g.pick(3)) + ";" + extras[i%len(extras)]
+			if g.chance(50) {
+				will += ";" + extras[g.pick(len(extras))]
+			}
+			add(1, []string{"SetClientID:63", "SetWill:[" + will + "]"})
+			add(3, []string{"SetTopicName:74", "SetPacketID:" + strconv.Itoa(1+g.pick(999))})
+			add(1, []string{"SetWillDelayInterval:" + strconv.Itoa(1+g.pick(99))})
+		}
+		validityOnly = false
 	}
 	if len(jobs) == 0 {
 		return
@@ -2265,6 +2346,7 @@ func oracleC02(r *report, g *G, n int, single string) {
 		case res == "OK":
 		case res == "REJECTED":
 			r.fail("frame-not-valid-mqtt", jobs[i].c, "the specification's strict decoder rejects "+trunc(strings.Fields(jobs[i].line)[1]))
+		case jobs[i].validityOnly:
 		default:
 			r.fail("frame-carries-other-values", jobs[i].c, trunc(res)+" library="+trunc(strings.Fields(jobs[i].line)[2]))
 		}
@@ -2375,6 +2457,20 @@ func oracleC09(r *report, g *G, n int, single string) {
 	for _, l := range []string{"cut-1 400100", "cut-4 2003000080", "cut-3 8206000100000561", "cut-5 900c0001091f00036162631f00"} {
 		f := strings.Fields(l)
 		check(f[0], f[1])
+	}
+	// (b) a remaining length that continues beyond four bytes, including the forms whose extra
+	// groups carry no value bits (zero-padded): whatever the value, the fifth byte is too many
+	for _, f := range [][]byte{{0xc0}, {0xd0}, {0xe0}, {0xf0}, {0x20, 0x00, 0x00, 0x00}, {0x40, 0x00, 0x01}, {0x40, 0x00, 0x01, 0x10},
+		{0x30, 0x00, 0x01, 0x74, 0x00}, {0xb0, 0x00, 0x01, 0x00, 0x00}, {0x62, 0x00, 0x01}} {
+		body := f[1:]
+		for _, pad := range []int{4, 5, 7} {
+			hdr := []byte{f[0], 0x80 | byte(len(body))}
+			for i := 1; i < pad; i++ {
+				hdr = append(hdr, 0x80)
+			}
+			hdr = append(hdr, 0x00)
+			check("vbint-padded-"+strconv.Itoa(pad+1)+"-bytes", hexs(append(hdr, body...)))
+		}
 	}
 	out, err := runModel([]string{"gen09", strconv.FormatInt(g.r.Int63n(1<<30), 10), strconv.Itoa(n)}, "")
 	if err != nil {
@@ -2539,6 +2635,23 @@ func oracleC14(r *report, g *G, n int, single string) {
 		return
 	}
 	scribble(0, []byte{1, 2, 3})
+	// big fields: copy-avoiding shortcuts tend to be keyed on a size threshold
+	for _, sz := range []int{255, 256, 1023, 1024, 4095, 4096, 4097, 8192, 65535, 70000} {
+		pub := frameOf(build(3, []string{"SetTopicName:74", "SetPayload:" + hexs(bytesRepeat(0x61, sz))}))
+		_, hl := splitFrame(pub)
+		scribble(3, pub[hl:])
+		if sz <= 65535 {
+			for _, cs := range [][]string{{"SetTopicName:" + hexs(bytesRepeat(0x62, sz))}, {"SetTopicName:74", "SetCorrelationData:" + hexs(bytesRepeat(0x63, sz))},
+				{"SetTopicName:74", "AddUserProp:6b:" + hexs(bytesRepeat(0x64, sz))}} {
+				f := frameOf(build(3, cs))
+				_, hl := splitFrame(f)
+				scribble(3, f[hl:])
+			}
+			con := frameOf(build(1, []string{"SetClientID:" + hexs(bytesRepeat(0x65, sz)), "SetPassword:" + hexs(bytesRepeat(0x66, sz))}))
+			_, hl = splitFrame(con)
+			scribble(1, con[hl:])
+		}
+	}
 	for i := 0; i < n; i++ {
 		f := g.validFrame()
 		_, hl := splitFrame(f)
